@@ -413,7 +413,8 @@ class FcpV2Transformer(Transformer):
             return error(f"File not found: {pathlib.Path(e.filename).name}")
 
         try:
-            self.error_logger.add_source(filename.name, source)
+            # keyed by path only: a module's bare file name may be the key of another source
+            # (e.g. the root schema given as "main.fcp" importing "x/main.fcp")
             self.error_logger.add_source(str(filename), source)
             self.error_logger.add_source(str(pathlib.Path(filename).resolve()), source)
             fcp_ast = fcp_parser.parse(source)
